@@ -5,7 +5,7 @@ from . import core, dyn, findings
 
 PID = "C17"
 dyn.typing = typing
-LETTERS = "ABC"
+LETTERS = "ABCD"
 WRAPS = ["bare", "Optional", "List", "Dict", "Union", "UnionR", "Tuple", "ListOptional", "OptionalList"]
 SPELL = ["direct", "inner", "whole", "pipe"]
 
@@ -23,16 +23,21 @@ def rand_system(rng):
     for i in range(k):
         refs = []
         for j in range(rng.randint(1, 3)):
-            refs.append(dict(name="r%d" % j, target=rng.randrange(k), wrap=rng.choice(WRAPS)))
+            w = rng.choice(WRAPS)
+            refs.append(dict(name="r%d" % j, target=rng.randrange(k), wrap=w, cons=(w in ("List", "Dict", "ListOptional") and rng.random() < 0.35)))
         sysd.append(dict(base=rng.choice(["Schema", "Schema", "DataClass"]), refs=refs, xt=rng.choice(["int", "int", "str"])))
+    if rng.random() < 0.4:
+        sysd[0]["sub_of"] = rng.randrange(k)
     # a parsed function over the classes: a: <class>, b: <wrapped class> = None  ->  <class>
     sysd[0]["fn"] = dict(a=rng.randrange(k), b=rng.randrange(k), bwrap=rng.choice(WRAPS), ret=rng.random() < 0.6,
                          rest=rng.randrange(k) if rng.random() < 0.4 else None, more=rng.randrange(k) if rng.random() < 0.3 else None)
     return sysd
 
 
-def default_for(w):
-    return {"List": "Field(default_factory=list)", "Dict": "Field(default_factory=dict)", "ListOptional": "Field(default_factory=list)"}.get(w, "None")
+def default_for(w, cons=False):
+    c = ", max_length=2" if cons else ""
+    return {"List": "Field(default_factory=list%s)" % c, "Dict": "Field(default_factory=dict%s)" % c,
+            "ListOptional": "Field(default_factory=list%s)" % c}.get(w, "None")
 
 
 def unrolled_src(sysd, prefix, depth):
@@ -43,8 +48,10 @@ def unrolled_src(sysd, prefix, depth):
             lines = ["class %s%s_%d(%s):" % (prefix, LETTERS[i], d, c["base"]), "    x: %s" % c["xt"]]
             if d < depth:
                 for r in c["refs"]:
-                    lines.append("    %s: %s = %s" % (r["name"], wrap_src(r["wrap"], "%s%s_%d" % (prefix, LETTERS[r["target"]], d + 1)), default_for(r["wrap"])))
+                    lines.append("    %s: %s = %s" % (r["name"], wrap_src(r["wrap"], "%s%s_%d" % (prefix, LETTERS[r["target"]], d + 1)), default_for(r["wrap"], r.get("cons"))))
             out.append("\n".join(lines))
+    if "sub_of" in sysd[0]:
+        out.append("class %sD_0(%s%s_0):\n    z: int = 0" % (prefix, prefix, LETTERS[sysd[0]["sub_of"]]))
     fn = sysd[0]["fn"]
     ta, tb = "%s%s_0" % (prefix, LETTERS[fn["a"]]), "%s%s_0" % (prefix, LETTERS[fn["b"]])
     extra = ""
@@ -93,13 +100,17 @@ def variant_src(sysd, prefix, rng, with_gen=True):
             elif future:
                 sp = "future"
             spells.append(sp)
-            lines.append("    %s: %s = %s" % (r["name"], ann, default_for(r["wrap"])))
+            lines.append("    %s: %s = %s" % (r["name"], ann, default_for(r["wrap"], r.get("cons"))))
         defined.add(i)
         blocks.append("\n".join(lines))
+        if sysd[0].get("sub_of") == i and rng.random() < 0.5:
+            blocks.append("class %sD(%s%s):\n    z: int = 0" % (prefix, prefix, LETTERS[i]))
+    if "sub_of" in sysd[0] and not any(b.startswith("class %sD(" % prefix) for b in blocks):
+        blocks.append("class %sD(%s%s):\n    z: int = 0" % (prefix, prefix, LETTERS[sysd[0]["sub_of"]]))
     # the function, at a random place among the classes
     fn = sysd[0]["fn"]
     pos = rng.randint(0, len(blocks))
-    before = set(order[:pos])
+    before = set(o for o in order if any(b.startswith("class %s%s(" % (prefix, LETTERS[o])) for b in blocks[:pos]))
 
     def spell(target, w):
         tname = "%s%s" % (prefix, LETTERS[target])
@@ -138,7 +149,7 @@ def variant_src(sysd, prefix, rng, with_gen=True):
         blocks.insert(gpos, "@utype.parse\ndef %sgen(a) -> %s:\n    yield a" % (prefix, gann))
     body = "\n".join(blocks) + "\n"
     if local:
-        names = ", ".join(["%s%s" % (prefix, LETTERS[i]) for i in range(len(sysd))] + [prefix + "fn"] + ([prefix + "gen"] if with_gen else []))
+        names = ", ".join(["%s%s" % (prefix, LETTERS[i]) for i in range(len(sysd))] + ([prefix + "D"] if "sub_of" in sysd[0] else []) + [prefix + "fn"] + ([prefix + "gen"] if with_gen else []))
         body = "def %s_make():\n" % prefix + "".join("    " + l + "\n" for l in body.splitlines()) + "    return %s\n" % names
         body += "%s = %s_make()\n" % (names, prefix)
     return dict(src=body, future=future, local=local, order=order, spells=spells)
@@ -164,11 +175,11 @@ def rand_value(rng, sysd, i, depth, maxd):
                 if w in ("bare", "Optional"):
                     v[ref["name"]] = inner() if rng.random() < 0.9 else None
                 elif w in ("List", "OptionalList"):
-                    v[ref["name"]] = [inner() for _ in range(rng.randint(0, 2))]
+                    v[ref["name"]] = [inner() for _ in range(rng.choice([0, 1, 2, 2, 3]))]
                 elif w == "ListOptional":
-                    v[ref["name"]] = [inner() if rng.random() < 0.8 else None for _ in range(rng.randint(0, 2))]
+                    v[ref["name"]] = [inner() if rng.random() < 0.8 else None for _ in range(rng.choice([0, 1, 2, 2, 3]))]
                 elif w == "Dict":
-                    v[ref["name"]] = {"k%d" % j: inner() for j in range(rng.randint(0, 2))}
+                    v[ref["name"]] = {"k%d" % j: inner() for j in range(rng.choice([0, 1, 2, 2, 3]))}
                 elif w in ("Union", "UnionR"):
                     v[ref["name"]] = inner() if rng.random() < 0.6 else rng.choice([7, "8", "zz"])
                 elif w == "Tuple":
@@ -178,7 +189,7 @@ def rand_value(rng, sysd, i, depth, maxd):
     return v
 
 
-NAME_RE = re.compile(r"Fw\d+[rv]\d*_?([A-C])(?:_\d)?")
+NAME_RE = re.compile(r"Fw\d+[rv]\d*_?([A-D])(?:_\d)?")
 
 
 def norm_text(s):
@@ -225,6 +236,12 @@ def system_oracle(i_seed):
     except Exception as e:
         return ("harness", "reference declaration failed: %r\n%s" % (e, ref_src), {})
     inputs = [(i, rand_value(rng, sysd, i, 0, DEPTH - 1)) for i in [rng.randrange(len(sysd)) for _ in range(6)]]
+    if "sub_of" in sysd[0]:
+        for _ in range(2):
+            v = rand_value(rng, sysd, sysd[0]["sub_of"], 0, DEPTH - 1)
+            v["z"] = rng.choice([1, "2"])
+            inputs.append((3, v))
+        rng.shuffle(inputs)
     fn = sysd[0]["fn"]
     for _ in range(2):
         kw = {"a": rand_value(rng, sysd, fn["a"], 0, DEPTH - 1)}
@@ -525,6 +542,7 @@ def state_case(i_seed):
     else:
         sysd = rand_system(rng)
         sysd[0]["fn"].update(rest=None, more=None, ret=False)
+        sysd[0].pop("sub_of", None)
         prefix = tag + "v0_"
         var = variant_src(sysd, prefix, rng, with_gen=False)
         stats["local"] = int(var["local"]); stats["future"] = int(var["future"])
